@@ -30,4 +30,9 @@ CHECKS = {
     design_ref='DESIGN.md section 2, C16',
     note='Liveness under one family of fair schedulers and a finite bound; the classification of starvation causes (used only to tell known findings from new ones) reads pool internals.',
     technique='stateful property-based testing with a fair closing schedule and a bounded-work liveness oracle'),
+ 'C17': dict(
+    text='The real AbstractPool.compile/compile_in_tx/compile_notebook/compile_sql, BaseWorker.call, WorkerQueue and one private instance of the real compiler_pool/worker.py per fake worker are driven with generated request histories (<=30 requests, 1-3 workers, 1-3 databases; state parts drawn from identity-stable version pools incl. A->B->A reuse, fresh equal copies and empty maps; faults: compile errors and un-unpicklable transfers for each part x 6 exception types; worker chosen by index or by the real queue). Oracle: the arguments the (recording) compiler receives equal what the caller passed, transaction requests get exactly their own compiler state, and after every request the server-side belief equals what the worker module holds. Model-based stateful PBT is the right level: the protocol is deterministic given the history.',
+    design_ref='DESIGN.md section 2, C17',
+    note='Process transport (amsg/worker_proc) and the compiler are replaced in-process; multitenant_worker.py is not driven. Requests are sequential.',
+    technique='stateful property-based testing: differential on worker-side arguments and belief-vs-truth invariant over generated request/fault histories'),
 }
